@@ -33,6 +33,9 @@ import (
 //                 all) and the big-number arithmetic of the independent verifiers
 //   handler_test.go how the protected handlers treat the request body (delayed / chunked / partial
 //                 reads, closes) and the per-request body oracle; bursts of overlapping requests
+//   fault_test.go what the request body READER does while the gate and the handler read it (short reads, data
+//                 with EOF, slow reads, a read error reported once or for good at a drawn offset, unsigned bytes
+//                 after the error point) and sessions: several requests carrying one and the same secret blob
 //
 // Every verdict is computed by an independent verifier from the request *as sent* (final
 // header strings, url, body bytes) and the virtual instants of the call; the way a request
